@@ -43,4 +43,6 @@ impl<T: Types> RaftLogWAL<T> {
         self.open.chunk.offs().len() - 1 >= self.config.sp_chunk_max_records() || (self.open.chunk.sp_end() - self.open.chunk.sp_start()) as usize >= self.config.sp_chunk_max_size()
     }
     pub open spec fn mag_ok(&self) -> bool { small(self.open.chunk.sp_end() as int) && small(self.sent_seq as int) }
+    /// the same magnitudes with room for the one record just journaled (< 2^62 + 2^61)
+    pub open spec fn mag_ok2(&self) -> bool { self.open.chunk.sp_end() < 0x6000_0000_0000_0000 && small(self.sent_seq as int) }
 }
